@@ -24,12 +24,12 @@ func NewVerifStreamsManager() (*HandlingDataManager, error) {
 		return nil, err
 	}
 	rd.metricManager = metricManager
-	rd.metricManager.UpdateMetricsForFlow(rd.stream)
+	rd.metricManager.UpdateMetricsForFlow(rd.getStream())
 	return rd, nil
 }
 
 // VerifStream returns the engine currently published to the message handler.
-func (rd *HandlingDataManager) VerifStream() *streams.Stream { return rd.stream }
+func (rd *HandlingDataManager) VerifStream() *streams.Stream { return rd.getStream() }
 
 // VerifOnRequest runs the streams branch of processRequest for already decoded
 // arguments (the SPOE decoding is not part of the simulation).
@@ -39,8 +39,9 @@ func (rd *HandlingDataManager) VerifOnRequest(
 	apiStream := stream_types.NewRequestAPIStream(args, sharedState)
 	rd.GetMetricManager().UpdateMetricsForAPICall(apiStream)
 	flowActions := &stream_config.StreamActions{Request: &stream_config.RequestStream{}}
-	err := runner.RunFlow(rd.stream, apiStream, flowActions)
-	rd.GetMetricManager().UpdateMetricsForFlow(rd.stream)
+	stream := rd.getStream()
+	err := runner.RunFlow(stream, apiStream, flowActions)
+	rd.GetMetricManager().UpdateMetricsForFlow(stream)
 	return flowActions, err
 }
 
@@ -51,7 +52,8 @@ func (rd *HandlingDataManager) VerifOnResponse(
 	apiStream := stream_types.NewResponseAPIStream(args, sharedState)
 	rd.GetMetricManager().UpdateMetricsForAPICall(apiStream)
 	flowActions := &stream_config.StreamActions{Response: &stream_config.ResponseStream{}}
-	err := runner.RunFlow(rd.stream, apiStream, flowActions)
-	rd.GetMetricManager().UpdateMetricsForFlow(rd.stream)
+	stream := rd.getStream()
+	err := runner.RunFlow(stream, apiStream, flowActions)
+	rd.GetMetricManager().UpdateMetricsForFlow(stream)
 	return flowActions, err
 }
